@@ -3,6 +3,26 @@
 import json, os, glob, re
 ROOT = '/verif/seeded'
 NEEDS = {
+ 'C11b': ("internal/ledger/state_accessor.go Commit: the journal range markers are written in a second batch after the data batch",
+          "a crash between the two durable writes of the state commit, before the chain batch of that block"),
+ 'C12b': ("internal/ledger/state_accessor.go RollbackState: a rollback to height 0 passes the window check whatever the window is",
+          "a chain longer than the journal window and a rollback target of exactly 0: the refused rollback has already reverted and deleted the retained journals"),
+ 'C13b': ("internal/ledger/state_changer.go: same change as C07 (two agents converged): reverting a write whose previous value was nil drops the tombstone",
+          "a committed key deleted in the block, written again under a snapshot, the snapshot reverted"),
+ 'C14b': ("internal/ledger/account.go SetBalance: the undo record stores the block-start balance instead of the balance before the write",
+          "an account that already paid in the block, then a transaction of it that writes its balance and is reverted (fee stage failure)"),
+ 'C15b': ("internal/executor/contracts/role.go updateRoleRelatedProposalInfo: paused proposals are skipped when the electorate changes",
+          "a proposal paused by a higher-priority one, an elector frozen/activated meanwhile, the proposal restored and tallied against the stale count"),
+ 'C16b': ("internal/executor/handle.go applyTx: a service event with unchanged status does not refresh the executor's service cache",
+          "a destination service that blocks a source through UpdateService (no status change) while it is cached; then a request from that source (cached vs restarted node differ, too)"),
+ 'C17b': ("internal/executor/contracts/governance.go Vote: IsAnyAdmin instead of IsAnyAvailableAdmin",
+          "an administrator frozen or logged out while an older proposal whose electorate contains it is still open, then its vote on that proposal"),
+ 'C18b': ("pkg/order/mempool/mempool_impl.go processCommitTransactions: commit nonce may regress and a drained account's pending nonce follows it",
+          "two batches of one account committed in swapped order, the account drained, an already committed nonce re-sent"),
+ 'C19b': ("pkg/order/mempool/mempool_impl.go processCommitTransactions: removed nonces of all accounts merged before cleaning each account's nonce index",
+          "one commit touching two accounts, one of which holds a parked tx whose nonce value the other commits; then the gap is filled"),
+ 'C20b': ("pkg/order/etcdraft/util.go recoverFromSnapshot: synced blocks are accepted from the ledger height instead of lastExec+1",
+          "a follower receiving a snapshot while its executor has not yet executed everything it was handed"),
  'C01b': ("internal/ledger/account_cache.go add: deleted keys are evicted from the cache instead of cached as tombstones (the agent chose the same change as C10/C13)",
           "a committed key deleted in block n, touched by a reader (or the next block) between flush and commit of n, then re-set to its old value in n+1; at node level additionally a comparison between replicas with different persist timing"),
  'C02b': ("internal/router/interchain.go classify: accepted transactions are no longer attached to a chain's wrapper when a timeout or multi-tx wrapper already exists for it",
